@@ -1351,6 +1351,14 @@ def run(chk):
     n_t = check_neutrality(chk, tus)
     n_w = check_twins(chk, tus)
     c06.check_data_modes(chk, tus, 'R09.6')
+    # R09.14: the compact (default) and the pretty output are the same program: the function prologue declares every local with its own
+    # zero initialiser in both modes (a declaration list `T a,b=0;` - shorter, compact-only - leaves `a` indeterminate); rule shared
+    # with C03 R03.5 / C11 R11.9
+    from . import c01 as _c01, c03 as _c03
+    _it = emit.make_interp(tus)
+    _tabs = _c01.read_type_tables(chk, tus[0], _it, _c01.value_types(_it), 'R09.14')
+    _c03.check_function_body(chk, tus, _tabs, rule='R09.14')
+    chk.floor('R09.14', 2)
     check_worker_call(chk, tu)
     check_worker_resources(chk, tu)
     check_bundled_getopt(chk, chk.tier)
